@@ -50,5 +50,18 @@ pub fn load() -> Vec<CorpusFile> {
             }
         }
     }
+    // the harness's own inputs: constructs the repository's inputs contain rarely or not at all
+    // (appended, so that every existing file keeps its position)
+    for (name, syn, text) in OWN {
+        out.push(CorpusFile { name: name.to_string(), syntax: syn, text: text.to_string() });
+    }
     out
 }
+
+const OWN: [(&str, &str, &str); 5] = [
+    ("own/lists.lua", "Lua51", include_str!("../corpus/lists.lua")),
+    ("own/calls.lua", "Lua51", include_str!("../corpus/calls.lua")),
+    ("own/strings.lua", "Lua51", include_str!("../corpus/strings.lua")),
+    ("own/luau_types.luau", "Luau", include_str!("../corpus/luau_types.luau")),
+    ("own/lua54.lua", "Lua54", include_str!("../corpus/lua54.lua")),
+];
